@@ -236,6 +236,8 @@ def predict(prog, case, model, script):
                         r = w.run_to_completion(w.start_process(c))
                     except Panic as e:
                         outcomes.append('panic: ' + str(e)); c['dead'] = True
+                        from .models.tokio_m import release_all_locks
+                        release_all_locks(M)
                         socks[n].extend(list(s.data) for s in c['src'].written[before:])
                         socks[n].append(None)
                         break
@@ -259,8 +261,17 @@ def predict(prog, case, model, script):
         if len(outcomes) == n0: outcomes.append('ok')
     return socks, outcomes
 
+_LISTLINE = re.compile(r'^(:\S+ (?:353|319) .*? :)(.*)$', re.S)
+def canon_line(t):
+    """RPL_NAMREPLY / RPL_WHOISCHANNELS list their items in hash-map order: compare them as sets"""
+    m = _LISTLINE.match(t)
+    if not m: return t
+    return m.group(1) + ' '.join(sorted(m.group(2).split(' ')))
+
 def line_regex(buf):
     from .models.fmt_m import DecSeg
+    if all(isinstance(x, int) for x in buf):
+        buf = list(canon_line(bytes(buf).decode('utf-8', 'surrogateescape')).encode('utf-8', 'surrogateescape'))
     out = []
     run = []
     def flush():
@@ -378,7 +389,7 @@ def replay_witness(run, prog, case, witness, release=False, probes=True):
                 if have and have[-1] == b'<EOF>' and panicked: continue
                 diffs.append(f'{n}: predicted handler panic, native: {have[-2:]} panicked={panicked}')
                 continue
-            d = multiset_diff([line_regex(b) for b in want], [l.decode('utf-8', 'surrogateescape') for l in have])
+            d = multiset_diff([line_regex(b) for b in want], [canon_line(l.decode('utf-8', 'surrogateescape')) for l in have])
             if d: diffs.append(f'{n}: ' + d)
         if any(o.startswith('panic') for o in outcomes):
             if not panicked: diffs.append('predicted panic but the server did not panic')
